@@ -87,6 +87,34 @@ def r2(cx, rec):
                     oks = [x for x in C.ok_exit_blocks(b) if x not in errs]
         rec.need(n >= nmin, 'guard-missing/%s/%s' % (suf, variant), f, None,
                  '%s no longer rejects with %s (%d site(s), expected %d)' % (suf.split('::')[-1], variant, n, nmin))
+        rec.need(n <= nmin, 'guard-added/%s/%s' % (suf, variant), f, None,
+                 '%s rejects with %s in %d places, %d were confirmed against the grammar: an additional rejection refuses well-formed input '
+                 '(the instances confirmed on the reviewed tree are the reference)' % (suf.split('::')[-1], variant, n, nmin))
+    # total number of rejection sites per function is the confirmed one (no unlisted rejections)
+    listed = {}
+    for suf, variant, rx, nmin in GUARDS:
+        listed[suf] = listed.get(suf, 0) + nmin
+    for suf, total in listed.items():
+        f = fn_by_suffix(F, suf)
+        bodies = [f] + [F.fns[c2] for c2 in F.children(f.path)]
+        n = sum(len(mirq.agg_sites(b, r'^error::Error$')) for b in bodies)
+        rec.need(n == total, 'rejections-changed/' + suf, f, None, '%s has %d rejection sites, %d are on file' % (suf.split('::')[-1], n, total))
+    # non-canonical integers: both "0"-prefixed and "-0"-prefixed forms are tested on the way to DecodeLeadingZero
+    pi = fn_by_suffix(F, 'BDecoder::parse_int')
+    lits = set()
+    for sb in pi.switches():
+        ce, ts, o = pi.cond(sb)
+        if ce[0] == 'call' and ce[4].get('name') in ('starts_with', 'eq') and pi.bool_edges(sb):
+            tt, ff = pi.bool_edges(sb)
+            lz = [bi for bi, si, e in mirq.agg_sites(pi, r'^error::Error$', 'DecodeLeadingZero')]
+            if any(b in pi.reach_from(tt, cut_blocks=[sb]) for b in lz):
+                subj = show(ce[2][0])
+                for x in walk(ce):
+                    if x[0] == 'str':
+                        lits.add((x[1], 'from_utf8' in subj and 'strip' not in subj and 'trim' not in subj))
+    rec.site(pi, None, 'prefixes leading to DecodeLeadingZero: %s' % sorted(lits))
+    rec.need(('0', True) in lits and ('-0', True) in lits, 'leading-zero-forms', pi, None,
+             'parse_int does not test the whole integer text for both the "0" and the "-0" prefix before accepting it: %s' % sorted(lits))
     # Ok exit of parse_int / parse_byte_str / parse_dict only past every guard of that function
     for suf in ('BDecoder::parse_int', 'BDecoder::parse_byte_str', 'BDecoder::parse_dict'):
         f = fn_by_suffix(F, suf)
@@ -112,7 +140,7 @@ def r2(cx, rec):
                     rec.need(not (r & set(oks)), 'ok-after-failed-guard/' + suf, f, eb, 'after the failing side of the guard %s the function can still return Ok' % show(ce)[:80])
 
 
-@TABLE.rule('3', 'K1', 'termination evidence: exhaustion where a terminator is expected is an error; take_while scans test for end of input', floor=4)
+@TABLE.rule('3', 'K1', 'termination evidence: exhaustion where a terminator is expected is an error; take_while scans test for end of input', floor=8)
 def r3(cx, rec):
     F = cx.F
     # (a) loops over the input iterator with a with_end flag
@@ -138,6 +166,20 @@ def r3(cx, rec):
                 rec.need(not ok_on_exhaust_with_end, 'exhaustion-accepted/' + f.path, f, t,
                          'when the input ends inside a list/dictionary (with_end set) the scanner returns Ok instead of an error: '
                          'unterminated containers such as "li1e" or "d1:ai1e" are accepted')
+    # (a2) the terminator flag is a constant at every call site: false only at the top level, true for nested containers
+    for f in F.user_fns():
+        params = [v['n'] for v in f.raw['vars'] if 'arg' in v]
+        if 'with_end' not in params or f.kind == 'Closure':
+            continue
+        wi = params.index('with_end')
+        for g, gb in C.callers(F, f.path):
+            a = g.expr_call(gb)[2][wi]
+            c = const_of(a)
+            top = (g.name in ('from_array', 'find_first'))
+            rec.site(g, gb, '%s(.., with_end=%s) from %s' % (f.name, show(a), g.name))
+            rec.need(c is not None and a[0] == 'const' and bool(c[0]) == (not top), 'terminator-flag/%s<-%s' % (f.name, g.name), g, gb,
+                     '%s calls %s with with_end=%s: %s' % (g.name, f.name, show(a),
+                                                          'a stray "e" at the top level is accepted as the end of input' if top else 'a nested container is not required to end with "e"'))
     # (b) take_while scans
     for f in F.user_fns():
         if not f.path.startswith('bcodec::') or f.kind == 'Closure':
